@@ -68,6 +68,11 @@ def body(ctx, desc, x):
     s.tree.save(fp, **kw)
     if B.obs_equal(B.observe(s.tree, s.nodes), obs0):
         return "save:source-changed"
+    if s.meta and kw["meta"] != s.meta:
+        return "save:caller-meta-dict-changed"
+    for k_, v_ in (("key_map", ser.CUSTOM_KEY_MAP), ("value_map", ser.CUSTOM_VALUE_MAP)):
+        if isinstance(kw.get(k_), dict) and kw[k_] != v_ and s.fl not in ("typed", "derived"):
+            return "save:caller-%s-changed" % k_
     ser.rewind(fp)
     fm = {}
     loaded = s.cls.load(fp, file_meta=fm, **s.load_kw)
@@ -109,9 +114,12 @@ def _native_targets(s, want, kw):
                 s.tree.save(path, **kw)
             else:
                 s.tree.save(path, compression=comp, **kw)
-            t2 = s.cls.load(path, **s.load_kw)
+            fm2 = {}
+            t2 = s.cls.load(path, file_meta=fm2, **s.load_kw)
             if ser.observe_rt(t2) != want:
                 return "load:path-target(compression=%r)" % (comp,)
+            if s.meta and fm2.get("foo") != "bar":
+                return "load:path-target-file_meta"
             os.remove(path)
     finally:
         for f in os.listdir(d):
